@@ -102,7 +102,7 @@ class Prop(BaseProp):
                             rich=True, p_sub=1.0 if kind == "nested-broken" else 0.6)
             if kind == "nested-broken":
                 # a syntax error in a directory that is NOT the last one walked: valid modules follow in later directories
-                tree.files["aaa_broken_first.cmake"] = "function(never_closed\n"
+                tree.files["k_broken_first.cmake"] = "function(never_closed\n"
                 tree.dirs.add("zzz_last")
                 tree.files["zzz_last/fine.cmake"] = cmake_text("zzz_last/fine.cmake")
             inp_dir = os.path.join(sb, "w", "proj")
